@@ -38,6 +38,9 @@ MUTANTS = [
     {'name': 'sorted-common-other-paths-content', 'expect': 'C13-R5',
      'edits': [E(T, "    return sorted(unique_list(ss for ss in flatten(paths) if ss in common))",
                  "    return sorted(unique_list(ss for ss in flatten(paths) if ss not in common))")]},
+    {'name': 'fake-root-takes-the-synset-lexicon', 'expect': 'C13-R6',
+     'edits': [E(T, "        root = _core.Synset.empty(id=_FAKE_ROOT, _wordnet=synset._wordnet)",
+                 "        root = _core.Synset.empty(id=_FAKE_ROOT, _lexid=synset._lexid, _wordnet=synset._wordnet)")]},
     {'name': 'shortest-path-keeps-start', 'expect': 'C13-R5',
      'edits': [E(T, "    return pathmap[key][1:]", "    return pathmap[key]")]},
     {'name': 'max_depth-default-minus-one', 'expect': 'C13-R5',
